@@ -639,4 +639,198 @@ theorem parse_marker_eq_model (src : Str) (hfuel : Mk.parse src ≠ .error .fuel
   simp only [PyTok.new, pure_ok, ok_bind]
   exact this
 
+/-! ## the model never runs out of fuel -/
+namespace Fuel
+
+theorem startsWith_length : ∀ (s w : Str), startsWith s w = true → w.length ≤ s.length
+  | _, [], _ => Nat.zero_le _
+  | [], _ :: _, h => by simp [startsWith] at h
+  | c :: cs, p :: ps, h => by
+    simp only [startsWith, Bool.and_eq_true] at h
+    have := startsWith_length cs ps h.2
+    simp only [List.length_cons]; omega
+
+theorem matchFin_pos (d : Bool × List Str × Bool) (hd : ∀ w ∈ d.2.1, w ≠ []) (p : Option Nat) (rest : Str) (k : Nat)
+    (h : Mk.matchFin d p rest = some k) : 1 ≤ k ∧ k ≤ rest.length := by
+  unfold Mk.matchFin at h
+  split at h
+  · cases h
+  · obtain ⟨w, hw, hk⟩ := List.exists_of_findSome?_eq_some h
+    split at hk
+    · rename_i hc
+      simp only [Bool.and_eq_true] at hc
+      cases hk
+      have := startsWith_length _ _ hc.1
+      have hne := hd w hw
+      cases w with
+      | nil => exact absurd rfl hne
+      | cons c cs => simp only [List.length_cons] at this ⊢; omega
+    · cases hk
+
+def len (m : Mk.St) : Nat := m.rest.length
+
+theorem check_len {r : Mk.Rule} {m m' : Mk.St} {t : Str} (h : Mk.St.check r m = some (t, m')) : len m' ≤ len m := by
+  unfold Mk.St.check at h
+  split at h
+  · cases h
+  · simp only [Option.some.injEq, Prod.mk.injEq] at h
+    obtain ⟨_, rfl⟩ := h
+    simp [len]
+
+theorem check_fin_lt {r : Mk.Rule} {d : Bool × List Str × Bool} (hr : ∀ p rest, Mk.matchRule r p rest = Mk.matchFin d p rest)
+    (hd : ∀ w ∈ d.2.1, w ≠ []) {m m' : Mk.St} {t : Str} (h : Mk.St.check r m = some (t, m')) : len m' < len m := by
+  unfold Mk.St.check at h
+  split at h
+  · cases h
+  · rename_i k hk
+    simp only [Option.some.injEq, Prod.mk.injEq] at h
+    obtain ⟨_, rfl⟩ := h
+    rw [hr] at hk
+    have := matchFin_pos d hd _ _ _ hk
+    simp only [len, List.length_drop]; omega
+
+theorem check_lparen_lt {m m' : Mk.St} {t : Str} (h : Mk.St.check .lparen m = some (t, m')) : len m' < len m :=
+  check_fin_lt (d := Gen.MarkerTok.rLparen) (fun _ _ => rfl) (by decide) h
+
+theorem check_boolop_lt {m m' : Mk.St} {t : Str} (h : Mk.St.check .boolop m = some (t, m')) : len m' < len m :=
+  check_fin_lt (d := Gen.MarkerTok.rBoolop) (fun _ _ => rfl) (by decide) h
+
+theorem consume_len (r : Mk.Rule) (m : Mk.St) : len (Mk.consume Mk.charTS r m) ≤ len m := by
+  simp only [Mk.consume, charTS_check]
+  split
+  · rename_i h; exact check_len h
+  · exact Nat.le_refl _
+
+/-- the result is not "out of fuel", and a success leaves at most `n` characters -/
+def Good {α} (n : Nat) (r : Mk.Res (α × Mk.St)) : Prop :=
+  match r with
+  | .ok (_, m') => len m' ≤ n
+  | .error e => e ≠ .fuel
+
+theorem Good.mono {α} {n k : Nat} {r : Mk.Res (α × Mk.St)} (h : Good n r) (hk : n ≤ k) : Good k r := by
+  cases r with
+  | ok p => exact Nat.le_trans h hk
+  | error e => exact h
+
+theorem Good.bind {α β} {n k : Nat} {x : Mk.Res (α × Mk.St)} {g : α × Mk.St → Mk.Res (β × Mk.St)}
+    (hx : Good n x) (hg : ∀ a m', len m' ≤ n → Good k (g (a, m'))) : Good k (x >>= g) := by
+  cases x with
+  | ok p => exact hg p.1 p.2 hx
+  | error e => exact hx
+
+theorem Good.ok {α} {n : Nat} {a : α} {m' : Mk.St} (h : len m' ≤ n) : Good n (.ok (a, m')) := h
+theorem Good.err {α} {n : Nat} : Good (α := α) n (.error .invalidMarker) := by
+  show Mk.Err.invalidMarker ≠ .fuel
+  decide
+
+theorem parseVar_good (m : Mk.St) : Good (len m) (Mk.parseVar Mk.charTS m) := by
+  simp only [Mk.parseVar, charTS_check]
+  split
+  · rename_i h; exact Good.ok (check_len h)
+  · split
+    · rename_i h
+      split
+      · exact Good.ok (check_len h)
+      · exact Good.err
+    · exact Good.err
+
+theorem parseOp_good (m : Mk.St) : Good (len m) (Mk.parseOp Mk.charTS m) := by
+  simp only [Mk.parseOp, charTS_check]
+  split
+  · rename_i h; exact Good.ok (check_len h)
+  · split
+    · rename_i h1
+      split
+      · exact Good.err
+      · rename_i h2
+        split
+        · exact Good.err
+        · rename_i h3
+          exact Good.ok (Nat.le_trans (check_len h3) (Nat.le_trans (check_len h2) (check_len h1)))
+    · split
+      · rename_i h; exact Good.ok (check_len h)
+      · exact Good.err
+
+theorem parseItem_good (m : Mk.St) : Good (len m) (Mk.parseItem Mk.charTS m) := by
+  unfold Mk.parseItem
+  have c1 := consume_len .ws m
+  refine Good.bind ((parseVar_good _).mono c1) fun l m2 h2 => ?_
+  refine Good.bind (((parseOp_good _).mono (consume_len .ws m2)).mono h2) fun o m4 h4 => ?_
+  refine Good.bind (((parseVar_good _).mono (consume_len .ws m4)).mono h4) fun r m6 h6 => ?_
+  exact Good.ok (Nat.le_trans (consume_len .ws m6) h6)
+
+/-- fuel `2·n + 3` is enough for `parseMarker` on `n` characters (`+2` for `parseAtom`, `+1` for `parseRest`) -/
+theorem parse_good : ∀ (f : Nat) (m : Mk.St),
+    (2 * len m + 3 ≤ f → Good (len m) (Mk.parseMarker Mk.charTS f m)) ∧
+    (2 * len m + 2 ≤ f → Good (len m) (Mk.parseAtom Mk.charTS f m)) ∧
+    (∀ acc, 2 * len m + 1 ≤ f → Good (len m) (Mk.parseRest Mk.charTS f acc m)) := by
+  intro f
+  induction f with
+  | zero => intro m; exact ⟨fun h => by omega, fun h => by omega, fun _ h => by omega⟩
+  | succ f ih =>
+    intro m
+    refine ⟨fun hf => ?_, fun hf => ?_, fun acc hf => ?_⟩
+    · simp only [Mk.parseMarker]
+      refine Good.bind ((ih m).2.1 (by omega)) fun a m1 h1 => ?_
+      exact ((ih m1).2.2 [a] (by omega)).mono h1
+    · simp only [Mk.parseAtom, charTS_check]
+      have c0 := consume_len .ws m
+      split
+      · rename_i t m1 hp
+        have h1 := check_lparen_lt hp
+        have c1 := consume_len .ws m1
+        refine Good.bind (n := len (Mk.consume Mk.charTS .ws m1)) ((ih _).1 (by omega)) fun l m3 h3 => ?_
+        dsimp only
+        have c3 := consume_len .ws m3
+        split
+        · exact Good.err
+        · rename_i t' m5 hr
+          have h5 := check_len hr
+          have c5 := consume_len .ws m5
+          exact Good.ok (by omega)
+      · refine Good.bind ((parseItem_good _).mono c0) fun a m2 h2 => ?_
+        exact Good.ok (Nat.le_trans (consume_len .ws m2) h2)
+    · simp only [Mk.parseRest, charTS_check]
+      split
+      · exact Good.ok (Nat.le_refl _)
+      · rename_i t m1 hb
+        have h1 := check_boolop_lt hb
+        refine Good.bind (n := len m1) ((ih m1).2.1 (by omega)) fun b m2 h2 => ?_
+        exact ((ih m2).2.2 _ (by omega)).mono (by omega)
+
+theorem parse_ne_fuel (src : Str) : Mk.parse src ≠ .error .fuel := by
+  unfold Mk.parse Mk.parseFull
+  have h := (parse_good (Mk.fuelFor src.length) ⟨none, src⟩).1 (by simp only [len, Mk.fuelFor]; omega)
+  cases hp : Mk.parseMarker Mk.charTS (Mk.fuelFor src.length) ⟨none, src⟩ with
+  | error e =>
+    rw [hp] at h
+    intro hc
+    cases hc
+    exact h rfl
+  | ok p =>
+    obtain ⟨l, m'⟩ := p
+    have hb : ∀ (x : List Mk.M × Mk.St) (g : List Mk.M × Mk.St → Mk.Res (List Mk.M)), (Except.ok x >>= g) = g x :=
+      fun _ _ => rfl
+    simp only [hb]
+    split <;> (intro hc; cases hc)
+
+/-- for callers with their own fuel (the requirement parser): enough fuel, no `.fuel` -/
+theorem parseMarker_ne_fuel (f : Nat) (m : Mk.St) (hf : 2 * m.rest.length + 3 ≤ f) :
+    Mk.parseMarker Mk.charTS f m ≠ .error .fuel := by
+  have h := (parse_good f m).1 hf
+  intro hc
+  rw [hc] at h
+  exact h rfl
+
+end Fuel
+
+/-- `parse_marker` = the model, without a fuel hypothesis -/
+theorem parse_marker_eq_model' (src : Str) :
+    Gen.PySrc.parse_marker (.str src) =
+      match Mk.parse src with
+      | .ok l => .ok (ofML l)
+      | .error _ => .error "ParserSyntaxError" :=
+  parse_marker_eq_model src (Fuel.parse_ne_fuel src)
+
 end Src
+
